@@ -1,8 +1,8 @@
 SPECIFICATION Spec
 CONSTANTS
-  MaxH = 10
+  MaxH = 13
   Page = 3
-  TSet = {0}
+  TSet = {2, 3, 4, 5, 6, 7, 8, 9, 10, 11}
   RUB = TRUE
   MTB = 1
   GCP = 1
